@@ -8,6 +8,7 @@ program before and after, played leaf by leaf by a small reference player, and o
 """
 import fractions
 import itertools
+import json
 import math
 import os
 import warnings
@@ -39,6 +40,15 @@ RULE = ('program trees: random (depth <= 5, counts 1-4, 1-4 children, leaf kinds
         'k/3, k/7 ... (ramps whose end value differs from the start value), sample rate a multiple of the denominator, '
         'grid points = correctly rounded doubles of k/rate, samples of to_waveform(program) before / after the rewrite '
         'against the exact rational voltages under the absolute tolerance 2^-30 (counted as inexact_cases). '
+        'Stateful / aliasing classes (round 3): the same waveform OBJECT at several leaves (build option share); the same '
+        'rewrite twice on the same objects; the same program and rewrite with the duration caches populated nowhere / '
+        'everywhere / only below some nodes (paired cases) and a rewritten sibling afterwards; measurements declared as '
+        'an empty list vs not declared; flatten_and_balance(d), d = 3..6, over sub programs that already have depth d - 1 '
+        'but are unbalanced (4 shapes x below the root / reached through the recursive call / below an inner path, built '
+        'deterministically); volatile counts that share ONE scope with one parameter per node, re-evaluated under two '
+        'other parameter assignments after the rewrite; directed make_compatible / roll_constant_waveforms shapes on '
+        'volatile programs. Observed in addition: .duration of EVERY node afterwards against the duration of what it '
+        'contains, a copy taken before the rewrite afterwards, sampling twice, the caller\'s time array. '
         'Non-trivial = the rewrite returned and changed the tree, or failed with an error, on a program with >= 3 '
         'nodes; distinct = distinct canonical JSON of the case.')
 TRUSTED = [
@@ -51,13 +61,12 @@ TRUSTED = [
     'hypothesis fallback_spec and is compared with the brute-force definition by the CSfg cases',
     'translator translate/py2gallina.py + translate/py2gallina_c06.py (fail-closed; its output coq/C06/Gen_sfg.v is '
     're-proved equal to the model on every run)',
-    'decimal stream: binary64 samples are compared with exact rationals under the absolute tolerance 2^-30; the '
-    'reference float path used to recognise the known finding C06-float-local-time-nested is harness code',
+    'decimal stream: binary64 samples are compared with exact rationals under the absolute tolerance 2^-30',
 ]
 ASSUMPTIONS = [
-    'a volatile count is described by its current value and the fact that it is volatile; the expression it '
-    'evaluates (the tag of Model_vol.v) is not observed; make_compatible / roll_constant_waveforms on volatile programs '
-    'are checked against the specification only',
+    'a volatile count is described by its current value, the fact that it is volatile and (programs built with one '
+    'shared scope, no rewrite before) the values its expression takes under two other assignments of the volatile '
+    'parameters; after a prefix of other rewrites the expression is not compared',
     'smallest_factor_ge: arguments are Python ints, min_factor >= 1',
     'programs are valid: counts >= 1 (>= 0 for the purely structural rewrites), a leaf carries a waveform, an inner '
     'node carries none, all leaves define the same channels',
@@ -86,7 +95,19 @@ def _fr(x):
     return F(x) if not isinstance(x, F) else x
 
 
+_SHARE = [None]      # dict while a program with build['share'] is built: equal leaf recipes -> the SAME waveform object
+
+
 def build_wf(d):
+    if _SHARE[0] is not None:
+        key = json.dumps(d, sort_keys=True)
+        if key not in _SHARE[0]:
+            memo, _SHARE[0] = _SHARE[0], None
+            try:
+                memo[key] = build_wf(d)
+            finally:
+                _SHARE[0] = memo
+        return _SHARE[0][key]
     from qupulse.program.waveforms import (ConstantWaveform, TableWaveform, SequenceWaveform, RepetitionWaveform,
                                            MultiChannelWaveform, ReversedWaveform)
     from qupulse.utils.types import TimeType
@@ -119,8 +140,37 @@ def build_wf(d):
     raise ValueError(k)
 
 
-def _meas(ids):
-    return [('m%d' % i, float(i), 1.0) for i in ids] or None
+def _meas(ids, declared_empty=False):
+    """no windows: `None` (not declared) or, with t['me'], an empty list (declared as empty)"""
+    return [('m%d' % i, float(i), 1.0) for i in ids] or ([] if declared_empty else None)
+
+
+_VSCOPE = [None]     # (scope shared by all volatile counts of the program being built, {id(node recipe): parameter index})
+
+
+def vol_index(tree):
+    """volatile nodes of a recipe in pre-order -> index i of their parameter n<i> (VVar i in Model_vol.v)"""
+    out = {}
+
+    def rec(t):
+        if t.get('v'):
+            out[id(t)] = len(out)
+        for c in t['c']:
+            rec(c)
+    rec(tree)
+    return out
+
+
+def vol_values(tree):
+    out = []
+
+    def rec(t):
+        if t.get('v'):
+            out.append(t['r'])
+        for c in t['c']:
+            rec(c)
+    rec(tree)
+    return out
 
 
 def _count(t):
@@ -129,6 +179,9 @@ def _count(t):
     from qupulse.program.volatile import VolatileRepetitionCount
     from qupulse.expressions import ExpressionScalar
     from qupulse.parameter_scope import DictScope
+    if _VSCOPE[0] is not None:      # the real situation: every volatile count of a program evaluates in the same scope
+        scope, index = _VSCOPE[0]
+        return VolatileRepetitionCount(expression=ExpressionScalar('n%d' % index[id(t)]), scope=scope)
     return VolatileRepetitionCount(expression=ExpressionScalar('n'),
                                    scope=DictScope.from_mapping({'n': t['r']}, volatile={'n'}))
 
@@ -137,12 +190,12 @@ def build_tree_ctor(t):
     from qupulse.program.loop import Loop
     return Loop(children=[build_tree_ctor(c) for c in t['c']],
                 waveform=None if t['w'] is None else build_wf(t['w']),
-                measurements=_meas(t['m']), repetition_count=_count(t))
+                measurements=_meas(t['m'], t.get('me')), repetition_count=_count(t))
 
 
 def build_tree_append(t):
     from qupulse.program.loop import Loop
-    node = Loop(waveform=None if t['w'] is None else build_wf(t['w']), measurements=_meas(t['m']),
+    node = Loop(waveform=None if t['w'] is None else build_wf(t['w']), measurements=_meas(t['m'], t.get('me')),
                 repetition_count=_count(t))
     for c in t['c']:
         node.append_child(loop=build_tree_append(c))
@@ -172,13 +225,36 @@ def build_program(recipe):
     if 'template' in recipe:
         return build_template(recipe['template']).create_program()
     t = recipe['tree']
-    prog = build_tree_append(t) if recipe.get('style') == 'append' else build_tree_ctor(t)
+    _SHARE[0] = {} if recipe.get('share') else None
+    _VSCOPE[0] = None
+    if recipe.get('vscope'):
+        from qupulse.parameter_scope import DictScope
+        vals = vol_values(t)
+        _VSCOPE[0] = (DictScope.from_mapping({'n%d' % i: v for i, v in enumerate(vals)},
+                                             volatile={'n%d' % i for i in range(len(vals))}), vol_index(t))
+    try:
+        prog = build_tree_append(t) if recipe.get('style') == 'append' else build_tree_ctor(t)
+    finally:
+        _SHARE[0] = None
+        _VSCOPE[0] = None
     for path in recipe.get('reverse', []):
         prog.locate(tuple(path)).reverse_inplace()
-    if recipe.get('read_dur'):
+    read_durations(prog, recipe.get('read_dur'))
+    return prog
+
+
+def read_durations(prog, how):
+    """populate the duration caches: True = every node, a list of paths = only the sub trees at these paths (their
+    ancestors stay unpopulated), False/None = nowhere"""
+    if how is True:
         for n in prog.get_depth_first_iterator():
             n.duration
-    return prog
+    elif how:
+        for path in how:
+            try:
+                prog.locate(tuple(path)).duration
+            except IndexError:
+                pass
 
 
 # ---------------------------------------------------------------------------------------------------------------------
@@ -222,6 +298,38 @@ def describe_tree(node, reg):
     return {'r': int(node.repetition_count), 'w': None if node.waveform is None else describe_wf(node.waveform, reg),
             'v': isinstance(node.repetition_definition, VolatileRepetitionCount),
             'm': [reg.window(w) for w in (node._measurements or [])], 'c': [describe_tree(c, reg) for c in node]}
+
+
+PROBE_ENVS = [[3, 5, 7, 11, 13, 17, 19, 23], [2, 9, 4, 25, 6, 49, 8, 27]]     # values of n0, n1, ... (cyclic)
+
+
+def probe_envs(nvol):
+    return [[[i, env[i % len(env)] + (i // len(env))] for i in range(nvol)] for env in PROBE_ENVS] if nvol else []
+
+
+def probe_tree(node, envs):
+    """every volatile count re-evaluated under other values of the volatile parameters (nothing is mutated: a new
+    VolatileRepetitionCount over the changed scope); [] for a plain int"""
+    from qupulse.program.volatile import VolatileRepetitionCount
+    rd = node.repetition_definition
+    vals = []
+    if isinstance(rd, VolatileRepetitionCount):
+        for env in envs:
+            sc = rd._scope.change_constants({'n%d' % i: v for i, v in env})
+            vals.append(int(type(rd)(rd._expression, sc)))
+    return {'v': vals, 'c': [probe_tree(c, envs) for c in node]}
+
+
+def node_durations_wrong(node, reg, path=()):
+    """paths of nodes whose reported .duration differs from the duration of what they contain (computed from the
+    description of the real objects, not from any cache)"""
+    out = []
+    d = describe_tree(node, reg)
+    if vlib.to_fraction(node.duration) != _desc_total(d):
+        out.append([list(path), vlib.frac_json(node.duration), str(_desc_total(d))])
+    for i, c in enumerate(node):
+        out.extend(node_durations_wrong(c, reg, path + (i,)))
+    return out
 
 
 def has_stale_index(node):
@@ -348,7 +456,8 @@ def _run_impl(case):
             return _run_dec(case, prog, reg, obs)
         if case['kind'] == 'idx':
             return _run_idx(case, prog, reg, obs)
-        times = grid_for(prog.copy_tree_structure().duration)
+        witness_copy = prog.copy_tree_structure()      # shares the waveform objects with prog, nothing else
+        times = grid_for(witness_copy.duration)
         before, end_before = play(prog, chans, times)
         obs['n_times'] = int(len(times))
     if case['kind'] == 'twf':
@@ -367,8 +476,15 @@ def _run_impl(case):
             return obs
         obs['wf'] = describe_wf(wf, reg)
         import numpy as np
+        times0 = times.copy()
         smp = {c: wf.unsafe_sample(c, times) if len(times) else np.zeros(0) for c in chans}
         obs['twf_same'] = same_arrays(smp, before) and set(wf.defined_channels) == set(chans)
+        # to_waveform must not have touched the program; asking again gives an equal waveform and the same samples
+        wf2 = to_waveform(prog)
+        smp2 = {c: wf2.unsafe_sample(c, times) if len(times) else np.zeros(0) for c in chans}
+        obs['twf_again'] = (describe_tree(prog, reg) == obs['input'] and describe_wf(wf2, reg) == obs['wf']
+                            and same_arrays(smp2, smp) and np.array_equal(times, times0)
+                            and not node_durations_wrong(prog, reg))
         return obs
     steps = [(st[0], st[1], st[2] if len(st) > 2 else False) for st in case.get('prefix', [])]
     steps.append((case['path'], case['op'], False))
@@ -425,6 +541,15 @@ def _run_impl(case):
     with vlib.time_limit(60):
         obs['after'] = describe_tree(prog, reg)
         obs['dur'] = vlib.frac_json(prog.duration)
+        obs['node_durs_wrong'] = node_durations_wrong(prog, reg)[:3]
+        # the copy taken before the rewrite shares only the waveform objects: it must still be the input program
+        obs['copy_intact'] = describe_tree(witness_copy, reg) == obs['input'] and not node_durations_wrong(witness_copy, reg)
+        if case.get('volatile'):
+            # the expression behind a volatile count is observed by re-evaluating it under other parameter values; the
+            # model knows the expressions of the input only when nothing ran before (tags VVar i in pre-order)
+            tagged = bool(case['build'].get('vscope')) and not executed
+            obs['envs'] = probe_envs(len(vol_values(case['build']['tree']))) if tagged else []
+            obs['probes'] = probe_tree(prog, obs['envs'])
         if 'err' not in obs:
             try:
                 node = prog.locate(tuple(case_path))
@@ -544,6 +669,10 @@ def _run_dec(case, prog, reg, obs):
         wf = to_waveform(prog.copy_tree_structure())
         obs['wfa'] = describe_wf(wf, reg)
         obs['sa'] = _samples_json(np.array(wf.get_sampled('A', times)) if len(times) else np.zeros(0))
+        # the same query again on the same objects (sample cache, shared time array), and the caller's array untouched
+        again = _samples_json(np.array(wf.get_sampled('A', times)) if len(times) else np.zeros(0))
+        obs['resample_same'] = again == obs['sa'] and np.array_equal(times, dec_grid(total, sr))
+        obs['node_durs_wrong'] = node_durations_wrong(prog, reg)[:3]
     _STATS['inexact_samples'] += 2 * len(times)
     return obs
 
@@ -703,9 +832,23 @@ def g_tree(t):
                                    glist(g_tree, t['c']))
 
 
-def g_vtree(t):
-    r = '(Volatile %s (VVar 0%%N))' % gZ(t['r']) if t.get('v') else '(Fixed %s)' % gZ(t['r'])
-    return '(VNode %s %s %s %s)' % (r, gopt(g_wf, t['w']), glist(lambda i: '%d%%N' % i, t['m']), glist(g_vtree, t['c']))
+def g_vtree(t, ctr=None):
+    """ctr = [next index]: volatile counts are numbered in pre-order (parameter n<i> of the shared scope = VVar i);
+    without it every volatile count is VVar 0 (expression not known: after a prefix, or one private scope per node)"""
+    if t.get('v'):
+        i = 0
+        if ctr is not None:
+            i = ctr[0]
+            ctr[0] += 1
+        r = '(Volatile %s (VVar %d%%N))' % (gZ(t['r']), i)
+    else:
+        r = '(Fixed %s)' % gZ(t['r'])
+    return '(VNode %s %s %s %s)' % (r, gopt(g_wf, t['w']), glist(lambda i: '%d%%N' % i, t['m']),
+                                   glist(lambda c: g_vtree(c, ctr), t['c']))
+
+
+def g_ptree(p):
+    return '(PNode %s %s)' % (glist(gZ, p['v']), glist(g_ptree, p['c']))
 
 
 def g_op(op):
@@ -762,7 +905,9 @@ def to_coq(case, obs):
         else:
             vo = '(VObsOk %s %s %s %s %s)' % (g_vtree(obs['after']), gQ(F(obs['dur'])), gZ(dp), gbool(bool(obs['bal'])),
                                              gbool(obs['warned']))
-        return '(CVol %s %s %s %s)' % (g_vtree(obs['mid']), path, g_op(lop), vo)
+        envs = glist(lambda e: glist(lambda kv: '(%d%%N, %s)' % (kv[0], gZ(kv[1])), e), obs['envs'])
+        return '(CVol %s %s %s %s %s %s)' % (g_vtree(obs['mid'], [0] if obs['envs'] else None), path, g_op(lop), vo, envs,
+                                             g_ptree(obs['probes']))
     if obs['prefix']:
         pre = glist(lambda st: '(%s, %s)' % (gpath(st[0]), g_op(st[1])), obs['prefix'])
         return '(CSeq %s %s %s %s %s %s)' % (g_tree(obs['input']), pre, g_tree(obs['mid']), path, g_op(lop), o)
@@ -780,8 +925,17 @@ def py_spec(case, obs):
     if case['kind'] == 'twf':
         if 'wf' in obs and not obs['twf_same']:
             return 'to_waveform(program) samples differ from the program played leaf by leaf'
+        if obs.get('twf_again') is False:
+            return 'to_waveform changed the program, the time array, or answers differently when asked again'
         return None
+    if obs.get('node_durs_wrong'):
+        return 'after the rewrite a node reports a duration different from what it contains (path, reported, actual): %r' \
+            % (obs['node_durs_wrong'][:1],)
+    if obs.get('copy_intact') is False:
+        return 'a copy of the program taken before the rewrite (shared waveform objects only) changed'
     if case['kind'] == 'dec':
+        if obs.get('resample_same') is False:
+            return 'sampling to_waveform(program) a second time gives different samples, or the time array was modified'
         if not obs.get('play_same', True):
             return 'leaf-by-leaf samples (or the end time) of the program differ before and after the rewrite'
         if 'sb' in obs and 'sa' in obs:
@@ -882,12 +1036,18 @@ def histogram_keys(case, obs):
             keys.append('sequence_len:%d' % (len(obs['prefix']) + 1))
         if case.get('volatile'):
             keys.append('volatile_counts')
-            keys.append('volatile:' + ('spec_only' if obs.get('last', [0, case['op']])[1][0] in ('make_compat', 'roll')
-                                       else 'modelled'))
+            keys.append('volatile_op:' + obs.get('last', [0, case['op']])[1][0])
+            keys.append('volatile:' + ('expressions_observed' if obs.get('envs') else 'expressions_not_observed'))
             if obs.get('warned'):
                 keys.append('volatile:warned')
     if 'build' in case:
         b = case['build']
+        if b.get('share'):
+            keys.append('shared_waveform_objects')
+        rd = b.get('read_dur')
+        keys.append('caches:' + ('everywhere' if rd is True else 'partly' if rd else 'nowhere'))
+        if k == 'rw' and len(case.get('prefix', [])) == 1 and case['prefix'][0][:2] == [case['path'], case['op']]:
+            keys.append('same_rewrite_twice')
         keys.append('build:' + ('template' if 'template' in b else b.get('style', 'ctor') +
                                 ('+reversed' if b.get('reverse') else '')))
     if 'input' in obs:
@@ -928,11 +1088,9 @@ def _is_nested(w):
 
 def classify(case, obs):
     """Which listed finding (known_findings.d/C06.json) does this failing case belong to?"""
-    if case['kind'] == 'dec' and 'sa' in obs and obs.get('play_same'):
-        why, explained = dec_verdict(case, obs)
-        if why is not None and explained and _is_nested(obs['wfb']) | _is_nested(obs['wfa']):
-            _STATS['inexact_known_finding_cases'] += 1
-            return 'C06-float-local-time-nested'
+    if case['kind'] == 'dec':
+        # the former known finding C06-float-local-time-nested is repaired in /repo (55554c3): a sample mismatch on the
+        # decimal stream is a violation again (the reference float path below only labels the histogram)
         return None
     if case['kind'] != 'rw' or 'input' not in obs:
         return None
@@ -1105,6 +1263,14 @@ def gen_build(rng, tier, **opts):
         return {'template': g_template(rng, chans, rng.randint(1, 3))}, None
     t = gen_tree(rng, chans, opts.pop('maxdepth', 4), **opts)
     b = {'tree': t, 'style': rng.choice(['ctor', 'append']), 'read_dur': rng.random() < 0.5}
+    r2 = rng.random()
+    if r2 < 0.15:                   # the same waveform OBJECT at several leaves
+        t = share_leaves(rng, t)
+        b['tree'], b['share'] = t, True
+    elif r2 < 0.25:                 # caches populated only below some nodes
+        b['read_dur'] = rng.sample(paths_of(t), min(len(paths_of(t)), rng.randint(1, 2)))
+    if rng.random() < 0.1:
+        declare_empty(rng, t)
     if rng.random() < 0.12 and not opts.get('empty'):
         inner = paths_of(t, lambda n, p: len(n['c']) >= 1)
         if inner:
@@ -1112,6 +1278,90 @@ def gen_build(rng, tier, **opts):
             b['tree'] = _strip_composite(t)
             t = _reversed_at(b['tree'], b['reverse'][0])
     return b, t
+
+
+def share_leaves(rng, t):
+    """every leaf plays one of at most two waveform recipes of the tree (built with build['share']: one object each)"""
+    pool = []
+
+    def collect(n):
+        if not n['c'] and n['w'] is not None:
+            pool.append(n['w'])
+        for c in n['c']:
+            collect(c)
+    collect(t)
+    if not pool:
+        return t
+    pick = rng.sample(pool, min(len(pool), rng.choice([1, 1, 2])))
+
+    def rec(n):
+        if not n['c'] and n['w'] is not None:
+            return dict(n, w=rng.choice(pick))
+        return dict(n, c=[rec(c) for c in n['c']])
+    return rec(t)
+
+
+def declare_empty(rng, t):
+    """measurements=[] (declared as empty) instead of None (not declared) at some nodes without windows"""
+    if not t['m'] and rng.random() < 0.5:
+        t['me'] = True
+    for c in t['c']:
+        declare_empty(rng, c)
+
+
+def _chain(rng, chans, k, rep=1):
+    """balanced sub program of depth k (k = 0: a leaf)"""
+    if k == 0:
+        return {'r': rep, 'w': g_leafwf(rng, chans, False), 'm': [], 'c': []}
+    n = rng.choice([1, 1, 2])
+    return {'r': rep, 'w': None, 'm': [], 'c': [_chain(rng, chans, k - 1, rng.choice([1, 1, 2])) for _ in range(n)]}
+
+
+def _unbalanced(rng, chans, k, variant):
+    """sub program whose depth is exactly k >= 2 and which is NOT balanced: a (repeated) block next to something
+    shallower.  variant 0: block + bare waveform, 1: bare waveform + block, 2: block + shallower block,
+    3: the imbalance sits one level further down"""
+    blk = _chain(rng, chans, k - 1, rng.choice([1, 2, 3]))
+    if variant == 0:
+        ch = [blk, _chain(rng, chans, 0, rng.choice([1, 2]))]
+    elif variant == 1:
+        ch = [_chain(rng, chans, 0, rng.choice([1, 2])), blk]
+    elif variant == 2 or k < 3:
+        ch = [blk, _chain(rng, chans, max(k - 2, 0) if k >= 3 else 0, rng.choice([1, 2])), _chain(rng, chans, 0)]
+    else:
+        ch = [_unbalanced(rng, chans, k - 1, 0), _chain(rng, chans, k - 1)]
+    return {'r': rng.choice([1, 1, 2]), 'w': None, 'm': [], 'c': ch}
+
+
+def gen_unbalanced_at_depth(rng, tier):
+    """flatten_and_balance(d), d >= 3, on programs with a sub program that already has depth d - 1 but is unbalanced
+    (accepting it because 'the depth is right' breaks the postcondition: seed C06-4's class), directly below the root,
+    below a deeper unbalanced node (reached through the recursive call with d - 1), and below an inner path"""
+    cases = []
+    chans = ['A']
+    for d in (3, 4, 5):
+        for variant in (0, 1, 2, 3):
+            for place in ('root', 'recursive', 'inner'):
+                for read in ((False, True) if tier == 'quick' else (False, True, [[0]], [[]])):
+                    sub = _unbalanced(rng, chans, d - 1, variant)
+                    sibs = [_chain(rng, chans, rng.choice([0, d - 1, d - 2]), rng.choice([1, 2]))
+                            for _ in range(rng.randint(0, 2))]
+                    kids = sibs[:1] + [sub] + sibs[1:]
+                    if place == 'root':
+                        t, path, dd = {'r': 1, 'w': None, 'm': [], 'c': kids}, [], d
+                    elif place == 'recursive':
+                        # target d + 1: the root's child `mid` (depth d, unbalanced) is handed to the recursive call with
+                        # target d, which meets the unbalanced block of depth d - 1
+                        mid = {'r': rng.choice([1, 2]), 'w': None, 'm': [], 'c': kids}
+                        t, path, dd = {'r': 1, 'w': None, 'm': [], 'c': [mid, _chain(rng, chans, 0)]}, [], d + 1
+                    else:
+                        mid = {'r': rng.choice([1, 2]), 'w': None, 'm': [], 'c': kids}
+                        t, path, dd = {'r': 1, 'w': None, 'm': [], 'c': [_chain(rng, chans, 1), mid]}, [1], d
+                    if unrolled_leaves(t) > 150:
+                        continue
+                    cases.append({'kind': 'rw', 'build': {'tree': t, 'style': rng.choice(['ctor', 'append']),
+                                                          'read_dur': read}, 'path': path, 'op': ['flatten', dd]})
+    return cases
 
 
 def _reversed_at(t, path):
@@ -1152,7 +1402,7 @@ def gen_cases(rng, tier, ctx):
         return rng.choice(ps)
 
     # --- flatten_and_balance -----------------------------------------------------------------------------------------
-    for _ in range(330 * mult):
+    for _ in range(290 * mult):
         b, t = gen_build(rng, tier, meas=rng.random() < 0.4, maxdepth=5 if rng.random() < 0.3 else 4)
         d = rng.choice([0, 1, 1, 2, 2, 3, 4, -1, 5] if rng.random() < 0.8 else [1, 2])
         path = some_path(t, lambda n, p: len(n['c']) >= 1, 0.75) if t else []
@@ -1162,7 +1412,7 @@ def gen_cases(rng, tier, ctx):
         b, t = gen_build(rng, tier, meas=rng.random() < 0.5, empty=rng.random() < 0.7)
         add('rw', b, some_path(t, lambda n, p: True, 0.8) or [], ['cleanup', rng.random() < 0.75, rng.random() < 0.75])
     # --- unroll / unroll_children / encapsulate / split / merge ------------------------------------------------------
-    for _ in range(300 * mult):
+    for _ in range(270 * mult):
         zero = rng.random() < 0.15
         b, t = gen_build(rng, tier, meas=rng.random() < 0.4, zero=zero)
         if t is None:
@@ -1190,7 +1440,7 @@ def gen_cases(rng, tier, ctx):
             if p is not None:
                 add('rw', b, p, ['merge'])
     # --- make_compatible ---------------------------------------------------------------------------------------------
-    for _ in range(220 * mult):
+    for _ in range(200 * mult):
         b, t = gen_build(rng, tier, meas=rng.random() < 0.2)
         ml, q, sr = rng.choice(TRIPLES)
         if t is not None and rng.random() < 0.5:
@@ -1244,16 +1494,65 @@ def gen_cases(rng, tier, ctx):
         if k == 'unroll':
             return [path or [0], ['unroll']]
         return [path, [k]]
-    for _ in range(220 * mult):
+    for _ in range(190 * mult):
         b, t = gen_build(rng, tier, meas=rng.random() < 0.3)
         steps = [rnd_step() + [rng.random() < 0.5] for _ in range(rng.randint(1, 3))]
         lp, lo = rnd_step()
         cases.append({'kind': 'rw', 'build': b, 'prefix': steps, 'path': lp, 'op': lo})
-    # --- volatile repetition counts: specification only (not modelled) ------------------------------------------------
+    # --- the same rewrite twice on the same objects (idempotence is not required, preservation is) -------------------
+    for _ in range(70 * mult):
+        b, t = gen_build(rng, tier, meas=rng.random() < 0.3)
+        st = rnd_step()
+        if t is not None and rng.random() < 0.7:
+            ps = paths_of(t, lambda n, p: len(n['c']) >= 1)
+            if ps:
+                st[0] = rng.choice(ps) if st[1][0] != 'unroll' else (rng.choice([q for q in ps if q] or [[0]]))
+        cases.append({'kind': 'rw', 'build': b, 'prefix': [[st[0], st[1], rng.random() < 0.5]], 'path': st[0], 'op': st[1]})
+    # --- the same program and rewrite with the duration caches populated nowhere / everywhere / only below the target /
+    #     only at the root's other children (seed C06-3's class: a rewrite that is only right on fresh caches) -----------
+    for _ in range(30 * mult):
+        b, t = gen_build(rng, tier, meas=rng.random() < 0.2)
+        if t is None:
+            continue
+        st = rnd_step()
+        ps = paths_of(t, lambda n, p: len(n['c']) >= 1)
+        if ps and rng.random() < 0.8:
+            st[0] = rng.choice(ps) if st[1][0] != 'unroll' else (rng.choice([q for q in ps if q] or [[0]]))
+        if st[1][0] == 'flatten' and rng.random() < 0.5:
+            st[0] = []
+        try:
+            _node_at(t, st[0])
+        except IndexError:
+            if st[1][0] == 'unroll':
+                continue
+            st[0] = []
+        if st[1][0] == 'unroll' and not st[0]:
+            continue
+        others = [[i] for i in range(len(t['c'])) if [i] != st[0][:1]]
+        for read in (False, True, [st[0]], others or [[]]):
+            cases.append({'kind': 'rw', 'build': dict(b, read_dur=read), 'path': st[0], 'op': st[1]})
+    # directed: encapsulate / unroll_children / split / merge of a repeated inner node, then a sibling is rewritten
+    for _ in range(16 * mult):
+        chans = ['A']
+        a = _chain(rng, chans, rng.choice([0, 1]), rng.choice([2, 3, 4]))
+        bsub = {'r': rng.choice([1, 2]), 'w': None, 'm': [], 'c': [_chain(rng, chans, 1, rng.choice([1, 2, 3]))]}
+        t = {'r': rng.choice([1, 2]), 'w': None, 'm': [], 'c': [a, bsub] if rng.random() < 0.5 else [bsub, a]}
+        ia = t['c'].index(a)
+        first = rng.choice([[[ia], ['encapsulate']], [[ia], ['encapsulate']], [[1 - ia], ['unroll_children']],
+                            [[1 - ia], ['split', None]], [[1 - ia], ['merge']]])
+        last = rng.choice([[[1 - ia], ['unroll_children']], [[1 - ia], ['merge']], [[], ['flatten', 2]], [[], ['flatten', 3]],
+                           [[ia], ['encapsulate']], [[], ['cleanup', True, True]]])
+        for read in (False, True):
+            cases.append({'kind': 'rw', 'build': {'tree': t, 'style': 'ctor', 'read_dur': read},
+                          'prefix': [first + [False]], 'path': last[0], 'op': last[1]})
+    # --- flatten_and_balance to depth >= 3 over sub programs that have the requested depth but are unbalanced -------
+    cases.extend(gen_unbalanced_at_depth(rng, tier))
+    # --- volatile repetition counts (Model_vol.v) ---------------------------------------------------------------------
     for _ in range(220 * mult):
         chans = rng.choice([['A'], ['A', 'B']])
         t = gen_tree(rng, chans, 4, vol=True, meas=rng.random() < 0.5)
-        b = {'tree': t, 'style': rng.choice(['ctor', 'append']), 'read_dur': rng.random() < 0.5}
+        b = {'tree': t, 'style': rng.choice(['ctor', 'append']), 'read_dur': rng.random() < 0.5,
+             'vscope': rng.random() < 0.85}
         lp, lo = rnd_step()
         if rng.random() < 0.6:
             lp = some_path(t, lambda n, p: len(n['c']) >= 1, 0.5) or []
@@ -1269,7 +1568,7 @@ def gen_cases(rng, tier, ctx):
             r = rng.choice([1, 2, 2, 3])
             kids.append({'r': r, 'w': g_leafwf(rng, chans, False), 'm': [], 'c': [], 'v': rng.random() < 0.5})
         t = {'r': rng.choice([1, 2]), 'w': None, 'm': [], 'c': kids, 'v': rng.random() < 0.3}
-        cases.append({'kind': 'rw', 'build': {'tree': t, 'style': 'ctor', 'read_dur': False}, 'prefix': [],
+        cases.append({'kind': 'rw', 'build': {'tree': t, 'style': 'ctor', 'read_dur': False, 'vscope': True}, 'prefix': [],
                       'path': [], 'op': ['split', None], 'volatile': True})
     for _ in range(30 * mult):
         chans = ['A']
@@ -1278,9 +1577,43 @@ def gen_cases(rng, tier, ctx):
                'v': rng.random() < 0.6}
         top = {'r': rng.choice([1, 2]), 'w': None, 'm': [0] if rng.random() < 0.7 else [], 'c': [mid], 'v': rng.random() < 0.3}
         root = {'r': 1, 'w': None, 'm': [], 'c': [top, dict(leaf, v=False)], 'v': False}
-        cases.append({'kind': 'rw', 'build': {'tree': root, 'style': 'ctor', 'read_dur': False}, 'prefix': [],
-                      'path': rng.choice([[0], [0], []]),
+        cases.append({'kind': 'rw', 'build': {'tree': root, 'style': 'ctor', 'read_dur': False, 'vscope': True},
+                      'prefix': [], 'path': rng.choice([[0], [0], []]),
                       'op': rng.choice([['merge'], ['cleanup', True, True], ['flatten', 1], ['flatten', 2]]), 'volatile': True})
+    # directed: make_compatible / roll_constant_waveforms on volatile programs (Model_vol.v): a volatile node whose body is
+    # merged and stays repeated (definition kept), one that has to be unrolled (frozen), a volatile leaf that is too
+    # short, a volatile count below a merged node (frozen without VolatileModificationWarning: known finding), volatile
+    # constant leaves that are rolled (count multiplied, expression scaled)
+    for _ in range(60 * mult):
+        chans = ['A']
+        q = rng.choice([1, 2, 4])
+        a, b2 = rng.choice([1, 2, 3]) * q, rng.choice([1, 2, 3]) * q
+        if rng.random() < 0.3:
+            a += rng.choice([1, q - 1]) if q > 1 else 0
+        leafa = {'r': rng.choice([1, 2, 3]), 'w': g_atom(rng, chans, a), 'm': [], 'c': [], 'v': rng.random() < 0.4}
+        leafb = {'r': rng.choice([1, 1, 2]), 'w': g_atom(rng, chans, b2) if rng.random() < 0.6 else g_const(rng, chans, b2),
+                 'm': [], 'c': [], 'v': rng.random() < 0.3}
+        inner = {'r': rng.choice([1, 2, 3]), 'w': None, 'm': [], 'c': [leafa, leafb], 'v': rng.random() < 0.6}
+        kids = [inner] + ([{'r': 1, 'w': g_atom(rng, chans, rng.choice([2, 4, 8]) * q), 'm': [], 'c': [], 'v': False}]
+                          if rng.random() < 0.6 else [])
+        rng.shuffle(kids)
+        root = {'r': rng.choice([1, 1, 2]), 'w': None, 'm': [], 'c': kids, 'v': rng.random() < 0.25}
+        body = a * leafa['r'] + b2 * leafb['r']
+        ml = rng.choice([body, body, body + 1, max(body - 1, 1), a + 1, 2 * body, 1, q])
+        cases.append({'kind': 'rw', 'build': {'tree': root, 'style': 'ctor', 'read_dur': rng.random() < 0.5, 'vscope': True},
+                      'prefix': [], 'path': rng.choice([[], [], [kids.index(inner)]]), 'op': ['make_compat', ml, q, '1'],
+                      'volatile': True})
+    for _ in range(30 * mult):
+        chans = rng.choice([['A'], ['A', 'B']])
+        q = rng.choice([1, 2, 4, 16])
+        kids = []
+        for _k in range(rng.randint(1, 3)):
+            quanta = rng.choice([2, 4, 6, 9, 12, 15, 16, 25, 35])
+            w = g_const(rng, chans, quanta * q) if rng.random() < 0.8 else g_atom(rng, chans, 4)
+            kids.append({'r': rng.choice([1, 2, 3]), 'w': w, 'm': [], 'c': [], 'v': rng.random() < 0.6})
+        root = {'r': rng.choice([1, 2]), 'w': None, 'm': [], 'c': kids, 'v': rng.random() < 0.3}
+        cases.append({'kind': 'rw', 'build': {'tree': root, 'style': 'ctor', 'read_dur': rng.random() < 0.5, 'vscope': True},
+                      'prefix': [], 'path': [], 'op': ['roll', rng.choice([1, 2, 3]), q, '1'], 'volatile': True})
     # --- recorded parent_index (Model_idx.v): unroll / unroll_children / encapsulate / split, some with a broken invariant
     for _ in range(150 * mult):
         b, t = gen_build(rng, tier, meas=rng.random() < 0.2, zero=rng.random() < 0.1)
@@ -1383,8 +1716,10 @@ def gen_dec(rng, tier):
 
     def add(t, sr, path, op, style='ctor'):
         if unrolled_leaves(t) <= 120 and 0 < _json_dur(t) * sr <= 400:
-            cases.append({'kind': 'dec', 'build': {'tree': t, 'style': style, 'read_dur': False}, 'sr': str(sr),
-                          'path': path, 'op': op})
+            b = {'tree': t, 'style': style, 'read_dur': rng.choice([False, False, True, [path]])}
+            if rng.random() < 0.3:
+                b['share'] = True       # equal leaf recipes (the directed shapes: all of them) are ONE waveform object
+            cases.append({'kind': 'dec', 'build': b, 'sr': str(sr), 'path': path, 'op': op})
     # the two shapes in which a repetition meets a copy of its body, x every rewrite that unrolls the repetition
     dirs = [(F(1, 10), 10), (F(7, 10), 10), (F(3, 10), 10), (F(1, 5), 5), (F(11, 10), 10), (F(1, 3), 3), (F(1, 10), 20),
             (F(2, 3), 3), (F(1, 7), 7), (F(1, 100), 100)]
@@ -1447,7 +1782,7 @@ def _forest(n):
 def exhaustive_small(rng):
     leafs = [{'k': 'const', 'd': '2', 'v': {'A': '1'}}, {'k': 'table', 'ch': 'A', 'e': [['0', '0', 'hold'], ['1', '1', 'linear']]}]
     cases = []
-    for n in range(1, 6):
+    for n in range(1, 7):
         for sh in _shapes(n):
             nodes = []
 
@@ -1457,8 +1792,8 @@ def exhaustive_small(rng):
                     count(c)
             count(sh)
             k = len(nodes)
-            for reps in itertools.product([1, 2, 3], repeat=k):
-                if rng.random() > (1.0 if k <= 4 else 0.3):
+            for reps in itertools.product([1, 2, 3] if k <= 5 else [1, 2], repeat=k):
+                if rng.random() > (1.0 if k <= 4 else 0.3 if k == 5 else 0.25):
                     continue
                 it = iter(range(k))
 
@@ -1467,8 +1802,16 @@ def exhaustive_small(rng):
                     return {'r': reps[i], 'w': None if s else leafs[(i + reps[i]) % 2], 'm': [], 'c': [mk(c) for c in s]}
                 t = mk(sh)
                 b = {'tree': t, 'style': 'ctor'}
-                for d in (0, 1, 2, 3):
+                if k == 6:      # six nodes: the smallest programs with an unbalanced sub program of depth 2 or 3 next to others
+                    if _depth(t) >= 3:
+                        for d in (3, 4):
+                            cases.append({'kind': 'rw', 'build': dict(b, read_dur=bool(reps[0] % 2)), 'path': [],
+                                          'op': ['flatten', d]})
+                    continue
+                for d in (0, 1, 2, 3) + ((4,) if _depth(t) >= 3 else ()):
                     cases.append({'kind': 'rw', 'build': b, 'path': [], 'op': ['flatten', d]})
+                    if d >= 2 and _depth(t) >= 2:      # the same with every duration cache populated
+                        cases.append({'kind': 'rw', 'build': dict(b, read_dur=True), 'path': [], 'op': ['flatten', d]})
                 cases.append({'kind': 'rw', 'build': b, 'path': [], 'op': ['cleanup', True, True]})
                 cases.append({'kind': 'rw', 'build': b, 'path': [], 'op': ['make_compat', 2, 2, '1']})
                 cases.append({'kind': 'twf', 'build': b})
@@ -1581,19 +1924,26 @@ MANIFEST = {
                   'postconditions of flatten_and_balance (depth, balance), make_compatible (every leaf >= minimum and a '
                   'multiple of the quantum) and cleanup; flatten_and_balance terminates on every tree. The same for programs '
                   'with volatile repetition counts (Fixed n | Volatile n tag): unroll / split / flatten preserve the pulse at '
-                  'the current values, encapsulate / merge / cleanup under every re-evaluation of the volatile parameters; '
+                  'the current values, encapsulate / merge / cleanup / roll_constant_waveforms under every re-evaluation of '
+                  'the volatile parameters; make_compatible refines the plain rewrite (pulse, duration, postcondition at the '
+                  'current values), never gains a volatile count and follows the parameters under every re-evaluation '
+                  'exactly when it loses none; "no VolatileModificationWarning implies the program still follows its '
+                  'parameters" is refuted for make_compatible (model and code agree: known finding); '
                   'split preference, freezing and termination proved. The rewrites executed with the recorded parent_index '
                   'refine the pure ones under the bookkeeping invariant and re-establish it (stale index refuted). '
                   'smallest_factor_ge is translated from the source on every run and proved equal to the model and correct. '
                   'The models are tied to the code by an exact correspondence check on generated programs (tree shape, '
-                  'counts, kind of count, warnings, recorded indices, leaf waveforms, errors, rewrite sequences); sampled '
+                  'counts, kind of count, the value of every volatile count under two other parameter assignments, '
+                  'warnings, recorded indices, leaf waveforms, errors, rewrite sequences, shared waveform objects, repeated '
+                  'rewrites, populated / partly populated / empty duration caches, the reported duration of every node); sampled '
                   'voltages before/after are compared on the real objects, exactly for binary-fraction durations and under '
                   'an absolute tolerance of 2^-30 for decimal durations.',
     'level_note': 'Trusted: Coq kernel, harness (describer, reference player), leaf waveform sampling (C08), translator. '
                   'The heap (parent pointers, aliasing, duration cache) is C09; here only the recorded index is modelled. '
-                  'make_compatible / roll_constant_waveforms on volatile programs: specification only. Known finding: '
-                  'nested composite waveforms with decimal durations are sampled at float-difference local times, so '
-                  'rewrites that change the nesting change samples on inner junctions (C06-float-local-time-nested).',
+                  'Binary64 sampling is tested under the tolerance, not proved. The former known finding '
+                  'C06-float-local-time-nested is repaired in /repo (55554c3) and is a violation again. Known finding: '
+                  'make_compatible freezes a volatile count below a merged node without VolatileModificationWarning '
+                  '(C06-make-compatible-silent-volatile-freeze; pulse at the current values preserved).',
     'technique': 'Coq proof over hand-written models + source translation of the integer kernel + correspondence check + '
                  'sample comparison on the implementation',
     'design_ref': 'DESIGN.md §5 C06, §4.5, Appendix D2',
